@@ -31,7 +31,7 @@ func init() {
 	register(&engine{name: "c09", prop: "C09", run: runC09})
 }
 
-var c09Noise = []string{"", " ", "(", ")", "[", "*", "+", "?", "\\", "a(b", "[[:alpha:", "(?P<n>", "\x00", "\xff\xfe", "ünï", "99999999999999999999", "-99999999999999999999", "1e400", "NaN", "0x", "1kb:", ":1kb", "99999999999999999999kb:", "1:99999999999999999999mb", "9223372036854775807", "-9223372036854775808", "18446744073709551616b", "1gb:1b", "k=", "=v", "k=1:2", "a=b=c", ">", ">>", "> ", "|", ";", "-", "--", "--cum", "-cum", "%s%n", "{{.}}", strings.Repeat("x", 300), "top", "=", "==", "//:", "tag=//:x", "\t"}
+var c09Noise = []string{"main.обработчик_входящих_сообщений_и_событий_очереди_обработки", "ünï" + strings.Repeat("é", 45), strings.Repeat("日本語", 15), "", " ", "(", ")", "[", "*", "+", "?", "\\", "a(b", "[[:alpha:", "(?P<n>", "\x00", "\xff\xfe", "ünï", "99999999999999999999", "-99999999999999999999", "1e400", "NaN", "0x", "1kb:", ":1kb", "99999999999999999999kb:", "1:99999999999999999999mb", "9223372036854775807", "-9223372036854775808", "18446744073709551616b", "1gb:1b", "k=", "=v", "k=1:2", "a=b=c", ">", ">>", "> ", "|", ";", "-", "--", "--cum", "-cum", "%s%n", "{{.}}", strings.Repeat("x", 300), "top", "=", "==", "//:", "tag=//:x", "\t"}
 
 var c09Commands = []string{"top", "top10", "top -5", "text", "tree", "peek", "peek .", "list", "list .", "weblist .", "disasm .", "tags", "tags k", "traces", "raw", "proto", "topproto", "dot", "callgrind", "comments", "svg", "png", "pdf", "ps", "gif", "web", "eog", "evince", "gv", "kcachegrind", "help", "help top", "help focus", "help zzz", "o", "options", "sample_index", "unit", "quit2", "toptop", "top0", "top00000000000000000000001"}
 
